@@ -2625,3 +2625,66 @@ pub mod flushfx {
         }
     }
 }
+
+// ---------------------------------------------------------------- R-CACHEDVIEW
+pub mod cviewfx {
+    pub struct BadBuf { pub store: Vec<u8>, pub view: Option<&'static [u8]> }
+    impl BadBuf {
+        pub fn set(&mut self, d: &[u8]) {
+            self.store.clear();
+            self.store.extend_from_slice(d);
+            let p = self.store.as_ptr();
+            self.view = Some(unsafe { std::slice::from_raw_parts(p, self.store.len()) });
+        }
+        // refreshes the view only when the Vec reallocated: the length of the view goes stale
+        pub fn bad_append(&mut self, d: &[u8]) {
+            let cap = self.store.capacity();
+            self.store.extend_from_slice(d);
+            if self.store.capacity() != cap {
+                let p = self.store.as_ptr();
+                self.view = Some(unsafe { std::slice::from_raw_parts(p, self.store.len()) });
+            }
+        }
+        pub fn bad_reserve(&mut self, n: usize) { self.store.reserve(n); }
+        fn grow(&mut self, n: usize) { self.store.reserve(n); }
+        pub fn bad_via_helper(&mut self, n: usize) -> usize { self.grow(n); self.store.capacity() }
+        pub fn get(&self) -> &[u8] { self.view.unwrap_or(&[]) }
+    }
+    pub struct OkBuf { pub store: Vec<u8>, pub view: Option<&'static [u8]> }
+    impl OkBuf {
+        fn refresh(&mut self) {
+            let p = self.store.as_ptr();
+            self.view = Some(unsafe { std::slice::from_raw_parts(p, self.store.len()) });
+        }
+        pub fn ok_append(&mut self, d: &[u8]) {
+            if d.is_empty() { return; }
+            self.store.extend_from_slice(d);
+            let p = self.store.as_ptr();
+            self.view = Some(unsafe { std::slice::from_raw_parts(p, self.store.len()) });
+        }
+        pub fn ok_reserve(&mut self, n: usize) {
+            self.store.reserve(n);
+            self.refresh();
+        }
+        pub fn ok_clear(&mut self) { self.store.clear(); self.view = None; }
+        pub fn capacity(&self) -> usize { self.store.capacity() }
+    }
+}
+pub mod cviewfx2 {
+    pub struct OkBuf2 { pub store: Vec<u8>, pub view: Option<&'static [u8]> }
+    impl OkBuf2 {
+        pub fn set(&mut self, d: &[u8]) {
+            self.fill(d);
+            let p = self.store.as_ptr();
+            self.view = Some(unsafe { std::slice::from_raw_parts(p, self.store.len()) });
+        }
+        fn fill(&mut self, d: &[u8]) { self.store.clear(); self.store.extend_from_slice(d); }
+        pub fn ok_reserve_if_some(&mut self, n: usize) {
+            self.store.reserve(n);
+            if let Some(v) = self.view {
+                let len = v.len();
+                self.view = Some(unsafe { std::slice::from_raw_parts(self.store.as_ptr(), len) });
+            }
+        }
+    }
+}
